@@ -1363,7 +1363,8 @@ var vViolations = []string{"no-did-context", "vm-no-fragment", "vm-duplicate-id"
 	"vm-no-jwk", "vm-empty-key-fragment", "ctx-only-object", "vm-kid-in-jwk", "vm-keyswap-known-id", "vm-known-id-other-did",
 	"vm-prefix-extension", "vm-prefix-truncated", "svc-prefix-extension", "svc-prefix-truncated",
 	"vm-secp-type-thumbprint-mismatch", "vm-unknown-type-thumbprint-mismatch", "vm-ed25519-type-jwk-mismatch", "vm-ed25519-base58-no-jwk",
-	"vm-keyswap-known-id-other-type", "vm-foreign-prefix-and-controller", "vm-foreign-prefix-and-controller-capinv", "vm-known-did-prefix-and-controller", "vm-null-entry", "rel-null-entry", "rel-empty-string-entry"}
+	"vm-keyswap-known-id-other-type", "vm-foreign-prefix-and-controller", "vm-foreign-prefix-and-controller-capinv", "vm-known-did-prefix-and-controller", "vm-null-entry", "rel-null-entry", "rel-empty-string-entry",
+	"vm-relative-id", "vm-relative-id-capinv", "vm-relative-id-query", "vm-relative-id-path", "svc-relative-id", "svc-relative-id-query", "svc-relative-id-path"}
 
 func (g *vGen) violate(which string, s *vDocSpec) {
 	other := "did:nuts:" + g.keys[0].b58
@@ -1443,6 +1444,25 @@ func (g *vGen) violate(which string, s *vDocSpec) {
 			s.VMs[i].Key = g.freshKey()
 			s.VMs[i].Type = "EcdsaSecp256k1VerificationKey2019"
 		}
+	case "vm-relative-id": // entry ids written as relative DID URLs
+		k := g.freshKey()
+		s.VMs = append(s.VMs, vVMSpec{ID: "#" + k.b64, Key: k})
+	case "vm-relative-id-capinv":
+		k := g.freshKey()
+		s.VMs = append(s.VMs, vVMSpec{ID: "#" + k.b64, Key: k})
+		s.Rels["capabilityInvocation"] = append(s.Rels["capabilityInvocation"], "#"+k.b64)
+	case "vm-relative-id-query":
+		k := g.freshKey()
+		s.VMs = append(s.VMs, vVMSpec{ID: "?v=1#" + k.b64, Key: k})
+	case "vm-relative-id-path":
+		k := g.freshKey()
+		s.VMs = append(s.VMs, vVMSpec{ID: "/keys#" + k.b64, Key: k})
+	case "svc-relative-id":
+		s.Svcs = append(s.Svcs, vSvcSpec{ID: "#svc-rel", Type: "type-rel", Endpoint: "https://example.com"})
+	case "svc-relative-id-query":
+		s.Svcs = append(s.Svcs, vSvcSpec{ID: "?v=1#svc-relq", Type: "type-relq", Endpoint: "https://example.com"})
+	case "svc-relative-id-path":
+		s.Svcs = append(s.Svcs, vSvcSpec{ID: "/s#svc-relp", Type: "type-relp", Endpoint: "https://example.com"})
 	case "vm-null-entry": // a JSON null in verificationMethod (no references: go-did's parser dereferences the entries when it resolves one)
 		s.NullVM = true
 		s.Rels = map[string][]interface{}{}
@@ -2443,6 +2463,85 @@ func vScenario(g *vGen, kind string, run func(p *vPair) bool) {
 		run(g.update(vUpdateOpts{kind: "da:update-by-deactivated-controller-alias-kid-after-deactivation", target: d, next: g.randomEdit, signer: func() (*vKey, string, []hash.SHA256Hash) {
 			return old.Key, e.latest().spec.ID + "#" + old.Key.b64, []hash.SHA256Hash{deact, e.latest().ref}
 		}}))
+	case kind == "chosen-signing-time":
+		// the signer chooses the signing time: D is controlled by C, C rotates key k2 out of capabilityInvocation (it stays a
+		// verification method); updates of D signed by k2 whose prevs pin the CURRENT versions of D and C, back- and forward-dated
+		var k2 vVMSpec
+		run(g.create("st:create-C", nil, func(s *vDocSpec, _ *vKey) {
+			kk := g.freshKey()
+			k2 = vVMSpec{ID: s.ID + "#" + kk.b64, Key: kk}
+			s.VMs = append(s.VMs, k2)
+			s.Rels["capabilityInvocation"] = append(s.Rels["capabilityInvocation"], k2.ID)
+		}, nil))
+		c := g.dids[g.order[len(g.order)-1]]
+		if c == nil || c.latest() == nil {
+			return
+		}
+		tCreate := c.latest().time
+		run(g.create("st:create-D-controlled-by-C", []string{c.latest().spec.ID}, func(s *vDocSpec, _ *vKey) {
+			s.Rels["capabilityInvocation"] = nil
+		}, nil))
+		d := g.dids[g.order[len(g.order)-1]]
+		if d == nil || d == c || d.latest() == nil {
+			return
+		}
+		g.now += 50
+		k1 := c.latest().spec.capInvKeys()[0]
+		run(g.update(vUpdateOpts{kind: "st:C-rotates-key-out", target: c, signer: func() (*vKey, string, []hash.SHA256Hash) { return k1.Key, k1.ID, nil },
+			next: func(s *vDocSpec) {
+				s.Rels["capabilityInvocation"] = []interface{}{k1.ID}
+				s.Rels["assertionMethod"] = append(s.Rels["assertionMethod"], k2.ID)
+			}}))
+		g.now += 50
+		for _, tm := range []int64{tCreate + 1, d.latest().time + 1, g.now + 1000} { // before the rotation (backdated) ... far in the future
+			tm := tm
+			run(g.update(vUpdateOpts{kind: "st:update-by-rotated-out-key-chosen-signing-time", target: d, next: g.randomEdit,
+				signer: func() (*vKey, string, []hash.SHA256Hash) { return k2.Key, k2.ID, []hash.SHA256Hash{c.latest().ref} },
+				sign:   func(s *vSignSpec) { s.time = tm }}))
+		}
+		run(g.update(vUpdateOpts{kind: "st:update-by-current-controller-key-backdated", target: d, next: g.randomEdit,
+			signer: func() (*vKey, string, []hash.SHA256Hash) { return k1.Key, k1.ID, []hash.SHA256Hash{c.latest().ref} },
+			sign:   func(s *vSignSpec) { s.time = tCreate + 2 }}))
+	case kind == "old-prev-first":
+		// prevs name an OLD version of the DID before the current one: a key that the current version removed signs
+		run(g.create("op:create", nil, func(s *vDocSpec, k *vKey) {
+			k2 := g.freshKey()
+			id := s.ID + "#" + k2.b64
+			s.VMs = append(s.VMs, vVMSpec{ID: id, Key: k2})
+			s.Rels["capabilityInvocation"] = append(s.Rels["capabilityInvocation"], id)
+		}, nil))
+		d := g.dids[g.order[len(g.order)-1]]
+		if d == nil || d.latest() == nil || len(d.latest().spec.capInvKeys()) < 2 {
+			return
+		}
+		v1 := *d.latest()
+		ci := v1.spec.capInvKeys()
+		gone := ci[1]
+		dropVM := g.rng.Intn(2) == 0
+		run(g.update(vUpdateOpts{kind: "op:remove-key", target: d, signer: func() (*vKey, string, []hash.SHA256Hash) { return ci[0].Key, ci[0].ID, nil },
+			next: func(s *vDocSpec) {
+				s.Rels["capabilityInvocation"] = []interface{}{ci[0].ID}
+				if dropVM {
+					s.VMs = s.VMs[:1]
+					s.Rels["assertionMethod"] = []interface{}{ci[0].ID}
+				}
+			}}))
+		if len(d.versions) < 2 {
+			return
+		}
+		v2 := *d.latest()
+		takeover := func(s *vDocSpec) { // the removed key makes itself the only capabilityInvocation key
+			*s = vDocUnderDID(gone.Key, s.ID)
+		}
+		for _, order := range [][]hash.SHA256Hash{{v2.ref, v1.ref}, {v1.ref, v2.ref}} {
+			order := order
+			from := &v2
+			if order[0] == v1.ref {
+				from = &v1
+			}
+			run(g.update(vUpdateOpts{kind: "op:removed-key-names-old-and-current-version", target: d, from: from, next: takeover,
+				signer: func() (*vKey, string, []hash.SHA256Hash) { return gone.Key, gone.ID, order[1:] }}))
+		}
 	case kind == "did-prefix":
 		// DIDs that are proper prefixes / extensions of the embedded key's thumbprint; two unrelated keys whose
 		// thumbprints share the first character both try to create that one-character DID
@@ -2629,7 +2728,7 @@ func TestVerifC09(t *testing.T) {
 	}
 	rng := rand.New(rand.NewSource(seed*7919 + 9))
 	scripted := []string{"chain0", "chain1", "chain2", "chain3", "chain4", "chain5", "chain6", "cycle1", "cycle2", "cycle3", "cycle5",
-		"deactivated-controller", "removed-key", "validator-sweep", "embedded-capinv", "handed-over", "key-swap", "did-prefix", "delayed-vdr", "unknown-did", "relationship-subsets", "deactivated-controller-alias"}
+		"deactivated-controller", "removed-key", "validator-sweep", "embedded-capinv", "handed-over", "key-swap", "did-prefix", "delayed-vdr", "unknown-did", "relationship-subsets", "deactivated-controller-alias", "chosen-signing-time", "old-prev-first"}
 	for h := 0; h < nHist; h++ {
 		kind := "mixed"
 		if h%2 == 0 {
